@@ -187,6 +187,8 @@ def virtVal (cx : Ctx) (t : Table) (r : Row) (c : Column) : Option Val :=
 
 /-- the value a Go getter returns for column `c` of row `r` (references and virtual columns resolved) -/
 def getVal (cx : Ctx) (t : Table) (r : Row) (c : Column) : Val :=
+  -- `isMissingOptionalColumn`: an optional column the backend does not provide reads as the empty value
+  if c.optional != 0 && !hasFlag cx.b.flags c.optional then c.dtype.emptyVal else
   match c.storage with
   | .loc => localVal t r c
   | .virt => (virtVal cx t r c).getD (.crash s!"virtual column {c.name} not modelled")
